@@ -19,7 +19,7 @@ func main() {
 	defer func() { os.Stderr = realStderr }()
 
 	meta := vh.NewMeta(ruleText())
-	e := &emitter{dir: o.Out, cf: vh.NewCaseFile(), meta: meta, limit: 1500, checkLib: checkLib()}
+	e := &emitter{dir: o.Out, cf: newCaseFile(), meta: meta, limit: 400, checkLib: checkLib()}
 
 	if o.Replay != "" {
 		for _, c := range readCases(o.Replay) {
